@@ -304,7 +304,10 @@ def check_csv(ctx, inst, truncated):
         if int(p[0]) != c["t"]:
             ctx.violate("C08", "scheduler_start_row", f"row {p} but call at {c['t']}")
         if c.get("offered") is not None and int(p[2]) != len(c["offered"]):
-            ctx.violate("C08", "scheduler_start_offered", f"row {p} but policy was offered {len(c['offered'])}")
+            pol = getattr(getattr(ctx.sim, "_scheduler", None), "policy", None)
+            ctx.violate("C08", "scheduler_start_offered", f"row {p} but policy was offered {len(c['offered'])}",
+                        branch_policy=getattr(pol, "name", None),
+                        has_conditional=any(bool(b) for b in ctx.world["meta"]["blocks"].values()))
         if int(p[3]) != c["resident"]:
             ctx.violate("C08", "scheduler_start_placed", f"row {p} but {c['resident']} tasks resident")
     for p, c in zip(sched_fins, calls):
